@@ -469,6 +469,21 @@ func (w *pfWorld) step(st *pfStep) M {
 			case "other":
 				v, _ := w.cipher.Marshal(&proxy.StateParameter{SessionID: "someone-else", RedirectURI: "/elsewhere"})
 				return v, true, info
+			case "other-sid", "other-uri":
+				// a genuine record differing from the browser's own in exactly one field (another flow started on the
+				// same URL / the same flow id with another return address)
+				if len(own) > 0 {
+					sp := &proxy.StateParameter{}
+					if err := w.cipher.Unmarshal(own[len(own)-1], sp); err == nil {
+						if kind == "other-sid" {
+							sp.SessionID = "another-flow-same-url"
+						} else {
+							sp.RedirectURI = sp.RedirectURI + "/elsewhere"
+						}
+						v, _ := w.cipher.Marshal(sp)
+						return v, true, info
+					}
+				}
 			case "otherkey":
 				v, _ := w.other.Marshal(&proxy.StateParameter{SessionID: "k2", RedirectURI: "/k2"})
 				return v, true, info
